@@ -381,7 +381,9 @@ def neutral_main(args) -> int:
     """Specificity self-test: no check may raise an alarm on an independently written behaviour-preserving change."""
     only = os.environ.get("VERIF_MUTANTS")
     specs = [s for s in neutral_specs() if not only or any(tok in s[0] for tok in only.split(","))]
-    runs = args.runs or 2400
+    from simkit.tiers import CHECKS
+
+    runs = args.runs or max(t[2]["quick"][0] for t in CHECKS.values())
     budget = int(args.budget or 300)
     jobs = [("neutral:" + sid, p, patch, None, None) for sid, props, patch in specs for p in props]
     results = []
@@ -411,11 +413,14 @@ def main(args) -> int:
             results.append(r)
             print(f"mutant {r['id']:40s} {r['property']}  {r['status']:14s} {r.get('wall_s', '')}  {'; '.join(r.get('signatures', []))[:160]}")
     # second stage: survivors of the reduced batch get the full quick-tier batch (what ./check <ID> --tier quick runs)
-    full = int(os.environ.get("VERIF_MUTANT_FULL_RUNS", "2400"))
-    if runs < full:
+    from simkit.tiers import CHECKS
+
+    full_env = os.environ.get("VERIF_MUTANT_FULL_RUNS")
+    if runs < max(t[2]["quick"][0] for t in CHECKS.values()):
         by_id = {s_[0]: s_ for s_ in specs}
         for i, r in enumerate(results):
             if r["status"] == "survived":
+                full = int(full_env) if full_env else CHECKS[r["property"]][2]["quick"][0]
                 r2 = run_mutant(by_id[r["id"]], full, budget)
                 r2["stage"] = f"second stage: {full} runs (first stage of {runs} runs found nothing)"
                 results[i] = r2
